@@ -35,10 +35,13 @@ def bounds(tier):
 
 
 def cases(tier, seed):
+    from .. import gen
+
     out = []
+    seed_set = set(gen.SEEDS)
     for i, (text, goals) in enumerate(program_corpus("c01", tier)):
         out.append({"input": {"text": text, "goals": goals}, "N": 4 if tier == "quick" else 6, "seed": seed})
-        if i < 20 or i % (6 if tier == "quick" else 3) == 0:
+        if i < 20 or i % (6 if tier == "quick" else 3) == 0 or text in seed_set:
             # the printed CLI route for a deterministic slice of the corpus
             out.append({"input": {"text": text, "goals": goals[:3], "route": "cli-text"}, "N": 4, "seed": seed})
     # programs with symbolic parameters (probabilities, coefficients, distribution parameters, initial values): the closed
